@@ -6,10 +6,10 @@ namespace WK.C07
 
 theorem chanInv_leo (ch : Chan) (h : ChanInv ch) (l : Nat) (hl : l = recoverLEO ch) :
     ChanInv { ch with leoC := some l } :=
-  ⟨h.uniq, h.nz, h.noHoles, (fun l' e => by simp only [Option.some.injEq] at e; rw [← e, hl]; rfl), h.retOK, h.iidx, h.sidx, h.cidx⟩
+  ⟨h.uniq, h.nodup, h.nz, h.noHoles, (fun l' e => by simp only [Option.some.injEq] at e; rw [← e, hl]; rfl), h.retOK, h.iidx, h.sidx, h.cidx⟩
 
 theorem chanInv_noleo (ch : Chan) (h : ChanInv ch) : ChanInv { ch with leoC := none } :=
-  ⟨h.uniq, h.nz, h.noHoles, (fun l' e => by cases e), h.retOK, h.iidx, h.sidx, h.cidx⟩
+  ⟨h.uniq, h.nodup, h.nz, h.noHoles, (fun l' e => by cases e), h.retOK, h.iidx, h.sidx, h.cidx⟩
 
 theorem loadLEO_val (ch : Chan) (h : ChanInv ch) : (loadLEO ch).1 = recoverLEO ch := by
   unfold loadLEO
@@ -138,7 +138,12 @@ theorem stage_batch_inv (st : Store) (c mode : Nat) (recs : List Rec) (new : Lis
     · left
       obtain ⟨x, hx, ex⟩ := hb.cover (leo + new.length) (by omega) (by omega)
       exact ⟨x, by rw [r3]; exact List.mem_append_right _ hx, ex⟩
-  refine ⟨I3.u, ?_, ?_, ?_, ?_, I3.i, I3.s, I3.cc⟩
+  refine ⟨I3.u, ?_, ?_, ?_, ?_, ?_, I3.i, I3.s, I3.cc⟩
+  · show (st3.chan c).rows.Pairwise _
+    rw [r3, List.pairwise_append]
+    refine ⟨CI.nodup, hb.apart.imp (fun h => h.2.1), ?_⟩
+    intro a ha b hb'
+    have := oldLe a ha; have := hb.lo b hb'; omega
   · intro x hx
     change x ∈ (st3.chan c).rows at hx
     rw [r3] at hx
